@@ -1,3 +1,4 @@
+from common import guarded
 """C16  Empty, one-observation and constant samples follow the documented contract.  Engine K."""
 import kjobs
 from kani_engine import Harness
@@ -37,8 +38,8 @@ def run(tier, seed):
     job.include_module(kjobs.QU, "quantile.rs")
     job.add(Harness("minmax_sentinels", "C16.MinMax.sentinels_one_observation", "Min::{new,min,add}, Max::{new,max,add}"),
             Harness("new_ok_in_unit_interval", "C16.Quantile.empty_is_nan", "Quantile::{new,quantile,len,is_empty}"))
-    obs = job.run()
-    obs += quantile_constant(tier)
+    obs = guarded("C16.engine.job.run@L40", lambda: job.run())
+    obs += guarded("C16.engine.quantile_constant@L41", lambda: quantile_constant(tier))
     meta = {
         "level": "proof",
         "checker_cmd": "cargo kani --no-default-features --features std (scratch copy + contracts/kani/*.rs)",
